@@ -552,9 +552,15 @@ func main() {
 	rep.Coverage["bounds"] = fmt.Sprintf("sequential: all %d^%d operation sequences (and their prefixes) over ids {a,b,c}; concurrent: %d scenarios of 2-3 threads x 1-2 ops on ids {a,b} from an empty and a primed log, all interleavings (unbounded)", 9, maxLen, len(scen))
 	rep.Coverage["explanation"] = "every trace is an execution of the real har.Logger (rewritten only so that its mutex is a scheduling point); states = distinct final model states + distinct concurrent histories"
 	rep.Assumptions = []string{
-		"scheduling points are the logger's lock operations; unsynchronised accesses would not be interleaved (no race pass for C17)",
+		"scheduling points are the logger lock operations; unsynchronised accesses are the business of the auxiliary free-running -race pass (sampling)",
 		"ids limited to {a,b,c}; one request/response shape (bodiless GET / 2xx)",
 	}
+	// auxiliary race pass: the same kind of thread bodies free-running on the unrewritten tree under -race
+	raceIters := "30"
+	if lib.Tier() == "thorough" {
+		raceIters = "300"
+	}
+	rep.ReportRaces(lib.RacePass("c17", "racebodies", "c17", raceIters))
 	rep.Finish()
 }
 
